@@ -119,7 +119,8 @@ ContentsOf(class) ==
     [] class = "mixed_head_tail"  -> {[content |-> "head_c_tail_i", permille |-> 450],   \* probe compresses, whole does not
                                       [content |-> "head_i_tail_c", permille |-> 1001]}  \* probe does not, whole would
 
-FlagsOf(class) == IF class = "client_compressed" THEN {16, 17} ELSE {0, 1}
+\* (10616833 = 0xa20001: client flag bits ABOVE the server's 0x10000 bit must survive compression too)
+FlagsOf(class) == IF class = "client_compressed" THEN {16, 17} ELSE {0, 1, 10616833}
 
 \* nominal compressed sizes for the model (the real ones are measured by the harness)
 PerMille(n, pm) == (n \div 1000) * pm + ((n % 1000) * pm) \div 1000     \* n*pm/1000 without 32-bit overflow
